@@ -341,6 +341,8 @@ inductive Op
   | addTransition (e : Name) (src : Src) (dst : Dst) (pass : Bool)
   | removeTransition (e : Name) (src dst : Option Name)
   | addModel (m : Nat) (o : Obj)
+  | failing (e : Err)                  -- a call that must raise `e` and change nothing: `add_model(model, initial=<unknown
+                                       -- state>)` (ValueError), `remove_model(<unregistered model>)` (ValueError)
   | fire (m : Nat) (e : Name)          -- `model.trigger(e)` ≡ `model.<e>()` (C11_event_method_eq_trigger)
   deriving Repr, Inhabited
 
@@ -350,6 +352,7 @@ def applyOp (hm : HM) : Op → HM × Option Err
   | .addTransition e src dst pass => addTransition hm e src dst pass
   | .removeTransition e src dst => removeTransition hm e src dst
   | .addModel m o => addModel hm m o
+  | .failing e => (hm, some e)
   | .fire m e => let p := fire hm m e; (p.1, match p.2 with | .ok _ => none | .error x => some x)
 
 /-- a history: an exception reaches the caller (the harness catches it) and the history goes on -/
